@@ -47,10 +47,8 @@ let sout_str = function
 
 let kclass_str = function
   | None -> "-"
-  | Some KPrefixOverExported -> "prefix-over-exported"
   | Some KReadIfsShadowed -> "read-ifs-shadowed"
   | Some KReadRejoined -> "read-remainder-rejoined"
-  | Some KCdHomeMissing -> "cd-home-missing"
   | Some KCdHomeNotExported -> "cd-home-not-exported"
 
 let state_str (s : st) : string =
@@ -113,6 +111,11 @@ let rec tokens = function
   | t :: x :: r -> (tag_of (dec_bytes t), str_of_field x) :: tokens r
   | _ -> failwith "tokens"
 
+(* which of the proposed repairs the tree under test contains: letters e (export), r (read), c (cd) *)
+let fx =
+  let f = try Sys.getenv "C09_FIXES" with Not_found -> "" in
+  { fx_export = String.contains f 'e'; fx_read = String.contains f 'r'; fx_cd = String.contains f 'c' }
+
 let () =
   iter_lines (fun l ->
     match split_tab l with
@@ -137,9 +140,9 @@ let () =
           | f :: _text :: r ->
               let o = op_of f in
               let a = abs s in
-              let k = known w a o in
-              let (_, so) = spec_step w a o in
-              let (s', out) = step w s (render o) in
+              let k = known fx a o in
+              let (_, so) = spec_step fx w a o in
+              let (s', out) = step fx w s (render o) in
               if Buffer.length buf > 0 then Buffer.add_char buf '\t';
               Buffer.add_string buf (outcome_str out ^ "|" ^ state_str s' ^ "|" ^ sout_str so ^ "|" ^
                                      kclass_str k ^ "|" ^ (if wf_op o then "wf" else "illformed"));
